@@ -26,12 +26,21 @@ type tkey struct {
 	a0, a1, a2 int
 }
 
-type TB struct {
-	tab  map[tkey]*Term
-	list []*Term
-	tT   *Term
-	tF   *Term
+type ckey struct {
+	w int
+	k uint64
 }
+
+type TB struct {
+	tab    map[tkey]*Term
+	list   []*Term
+	tT     *Term
+	tF     *Term
+	consts map[ckey]*Term // persistent across paths (IDs from a separate range), never reset
+	nconst int
+}
+
+const constIDBase = 1 << 40
 
 func NewTB() *TB {
 	tb := &TB{}
@@ -40,10 +49,16 @@ func NewTB() *TB {
 }
 
 func (tb *TB) Reset() {
-	tb.tab = make(map[tkey]*Term, 1024)
+	if tb.consts == nil {
+		tb.consts = map[ckey]*Term{}
+		tb.tT = &Term{ID: constIDBase, Op: "true"}
+		tb.tF = &Term{ID: constIDBase + 1, Op: "false"}
+		tb.nconst = 2
+	}
+	if len(tb.tab) > 0 || tb.tab == nil {
+		tb.tab = make(map[tkey]*Term, 256)
+	}
 	tb.list = tb.list[:0]
-	tb.tT = tb.mk("true", 0, 0, "")
-	tb.tF = tb.mk("false", 0, 0, "")
 }
 
 func (tb *TB) mk(op string, w int, k uint64, name string, args ...*Term) *Term {
@@ -86,7 +101,15 @@ func (tb *TB) Const(w int, v uint64) *Term {
 	if w == 0 {
 		return tb.BoolC(v != 0)
 	}
-	return tb.mk("const", w, v&mask(w), "")
+	v &= mask(w)
+	k := ckey{w, v}
+	if t, ok := tb.consts[k]; ok {
+		return t
+	}
+	t := &Term{ID: constIDBase + tb.nconst, Op: "const", W: w, K: v}
+	tb.nconst++
+	tb.consts[k] = t
+	return t
 }
 
 // SConst: constant from a signed value, sign-extended to w.
@@ -205,7 +228,7 @@ func (tb *TB) Extract(t *Term, hi, lo int) *Term {
 			return tb.Extract(t.Args[0], hi-lw, lo-lw)
 		}
 	case "ite":
-		if w <= 8 || t.Args[1].IsConst() || t.Args[2].IsConst() {
+		if w <= 8 || t.Args[1].IsConst() || t.Args[2].IsConst() || iteConstLeaves(t, 0) {
 			return tb.Ite(t.Args[0], tb.Extract(t.Args[1], hi, lo), tb.Extract(t.Args[2], hi, lo))
 		}
 	case "bvadd", "bvsub", "bvmul":
@@ -260,6 +283,9 @@ func (tb *TB) Ext(op string, t *Term, w int) *Term { // sext/zext to width w
 			return tb.BigConst(w, t.sbig())
 		}
 		return tb.BigConst(w, t.big())
+	}
+	if iteConstLeaves(t, 0) {
+		return tb.Ite(t.Args[0], tb.Ext(op, t.Args[1], w), tb.Ext(op, t.Args[2], w))
 	}
 	if t.Op == op { // ext of ext
 		return tb.Ext(op, t.Args[0], w)
@@ -623,9 +649,9 @@ func (tb *TB) Bin(op string, a, b *Term) *Term {
 			}
 			return tb.Not(a)
 		}
-		// ite(c, k1, k2) = k  with constants
-		if b.IsConst() && a.Op == "ite" && a.Args[1].IsConst() && a.Args[2].IsConst() {
-			return tb.Ite(a.Args[0], tb.Eq(a.Args[1], b), tb.Eq(a.Args[2], b))
+		// ite-tree with constant leaves = k
+		if b.IsConst() && a.Op == "ite" && iteConstLeaves(a, 0) {
+			return tb.distCmp("=", a, b, true)
 		}
 		// zext(x) = const
 		if b.IsConst() && (a.Op == "zext") && w <= 64 {
@@ -668,6 +694,26 @@ func (tb *TB) Bin(op string, a, b *Term) *Term {
 	case "bvule", "bvsle":
 		if a == b {
 			return tb.BoolC(true)
+		}
+	}
+	switch op {
+	case "bvadd", "bvsub", "bvmul", "bvand", "bvor", "bvxor":
+		if b.IsConst() && iteConstLeaves(a, 0) {
+			return tb.distCmp(op, a, b, true)
+		}
+		if a.IsConst() && iteConstLeaves(b, 0) {
+			return tb.distCmp(op, b, a, false)
+		}
+	}
+	// comparison of an ite-tree with constant leaves against a constant: distribute (yields a boolean combination of
+	// the ite conditions, which the explorer can decide atom by atom)
+	switch op {
+	case "bvult", "bvule", "bvslt", "bvsle":
+		if b.IsConst() && iteConstLeaves(a, 0) {
+			return tb.distCmp(op, a, b, true)
+		}
+		if a.IsConst() && iteConstLeaves(b, 0) {
+			return tb.distCmp(op, b, a, false)
 		}
 	}
 	if op == "bvult" && b.IsConst() && w <= 64 && a.Op == "zext" {
@@ -767,4 +813,24 @@ func standaloneScript(roots []*Term) string {
 	}
 	sb.WriteString("(check-sat)\n")
 	return sb.String()
+}
+
+func iteConstLeaves(t *Term, depth int) bool {
+	if depth > 64 {
+		return false
+	}
+	if t.Op == "ite" {
+		return iteConstLeaves(t.Args[1], depth+1) && iteConstLeaves(t.Args[2], depth+1)
+	}
+	return t.IsConst() && depth > 0
+}
+
+func (tb *TB) distCmp(op string, tree, k *Term, treeLeft bool) *Term {
+	if tree.Op == "ite" {
+		return tb.Ite(tree.Args[0], tb.distCmp(op, tree.Args[1], k, treeLeft), tb.distCmp(op, tree.Args[2], k, treeLeft))
+	}
+	if treeLeft {
+		return tb.Bin(op, tree, k)
+	}
+	return tb.Bin(op, k, tree)
 }
